@@ -371,6 +371,22 @@ def _is_inf(v):
 
 
 # ----------------------------------------------------------------------------- group level
+def canonical_point(cs, made=None):
+    """formal point for the coordinate triple cs; (x, -y, z) is the negative of (x, y, z), so the
+    name is built on the sign-normalised y and the sign goes into the coefficient"""
+    x, y, z = cs
+    neg = False
+    if isinstance(y, Rat) and y.n.t:
+        k = min(y.n.t)
+        if y.n.t[k] < 0:
+            neg, y = True, -y
+    name = "Pt(%r, %r, %r)" % (x, y, z)
+    if made is not None:
+        made[name] = (x, y, z)
+    P = LinPt.point(name)
+    return -P if neg else P
+
+
 def _group_eval(p, moduli=("n",), extra_hook=None, no_inline=()):
     """evaluator for the ECDSA-level formulas: points are formal combinations of G, Q, ...;
     scalars are rational functions; n * P = O for every point (scalar_zero)"""
@@ -385,9 +401,7 @@ def _group_eval(p, moduli=("n",), extra_hook=None, no_inline=()):
         if last == "PointJacobi" and len(args) >= 4 and all(isinstance(a, Rat) for a in args[1:4]):
             zero = {v: Poly() for v in ev.coord_zero}
             cs = tuple(Rat(a.n.subst(zero), a.d.subst(zero)) for a in args[1:4])
-            name = "Pt(%r, %r, %r)" % cs
-            made[name] = cs
-            return LinPt.point(name)
+            return canonical_point(cs, made)
         if last == "bit_length":
             return Unknown("bit_length")
         return None
@@ -522,8 +536,7 @@ def recover_formula(chk, p, pid="C14", rule="R14.4"):
             continue
         want = []
         for y in (V("beta"), -V("beta")):
-            nm = "Pt(%r, %r, %r)" % (r, y, C(1))
-            want.append(LinPt.point(nm).smul(s * r.inv()) - G.smul(e * r.inv()))
+            want.append(canonical_point((r, y, C(1))).smul(s * r.inv()) - G.smul(e * r.inv()))
         lits = path.unit_lits()
         for i, w in enumerate(want):
             returned = any(g == w for g in got)
